@@ -64,4 +64,7 @@ pub use tags::{OwnedTags, Tags, TagsIter, TagsStringIter};
 mod time;
 pub use time::Time;
 
+#[cfg(feature = "verif")]
+pub mod verif_clock;
+
 pub use secp256k1;
